@@ -40,6 +40,9 @@ var props = map[string]propCfg{
 	"C03": {Engine: "chain",
 		Quick:    []phase{{"chain", false, 25 * time.Second}, {"chain", true, 15 * time.Second}},
 		Thorough: []phase{{"chain", false, 10 * time.Minute}, {"chain", true, 3 * time.Minute}}},
+	"C13": {Engine: "rw",
+		Quick:    []phase{{"rw", false, 20 * time.Second}, {"rw", true, 15 * time.Second}},
+		Thorough: []phase{{"rw", false, 6 * time.Minute}, {"rw", true, 4 * time.Minute}}},
 	"C05": {Engine: "conc",
 		Quick:    []phase{{"conc", false, 25 * time.Second}, {"conc", true, 35 * time.Second}},
 		Thorough: []phase{{"conc", false, 6 * time.Minute}, {"conc", true, 12 * time.Minute}}},
@@ -227,7 +230,7 @@ func runPhase(ph phase, bin string, seed uint64, tmp string) *phaseResult {
 				}
 				mb, _ := os.ReadFile(base + ".mark")
 				idx, _ := strconv.ParseUint(strings.TrimSpace(string(mb)), 10, 64)
-				if code == 66 && ph.Race {
+				if code == 66 && ph.Race && eng.RaceClass(readRaceLogs(base+".racelog")) != "" {
 					rep := readRaceLogs(base + ".racelog")
 					mu.Lock()
 					pr.RaceHits = append(pr.RaceHits, raceHit{Index: idx, Report: rep})
@@ -328,6 +331,16 @@ func mergeSummary(pr *phaseResult, mu *sync.Mutex, base string) {
 }
 
 func raceClass(rep string) string { return eng.RaceClass(rep) }
+
+var harnessRaces int
+
+func harnessOnly(cls string) bool {
+	parts := strings.Split(cls, " <-> ")
+	if len(parts) != 2 {
+		return false
+	}
+	return strings.HasPrefix(parts[0], "verif/sim/") && strings.HasPrefix(parts[1], "verif/sim/")
+}
 
 func main() {
 	if len(os.Args) < 3 {
@@ -448,6 +461,13 @@ func main() {
 				continue
 			}
 			raceSeen[cls] = true
+			if harnessOnly(cls) {
+				// both accesses are inside the simulator: a harness artefact (seen only when the code
+				// under test hangs outside the scheduler and two goroutines overlap), never a verdict
+				fmt.Printf("harness-only race report ignored: %s\n", cls)
+				harnessRaces++
+				continue
+			}
 			path := confirmRace(bins, pr.Phase, pr.Seed, h, tmp, id)
 			fmt.Printf("data race in run %d (%s)\n%s\n", h.Index, cls, head(h.Report, 3500))
 			if path == "" {
@@ -475,6 +495,9 @@ func main() {
 	writeEvidence(id, mode, seed, results, nviol, time.Since(start).Seconds())
 	if nviol > 0 {
 		exit = 1
+	} else if harnessRaces > 0 && exit == 0 {
+		fmt.Fprintln(os.Stderr, "INFRASTRUCTURE: only harness-internal race reports were produced")
+		exit = 2
 	}
 	os.RemoveAll(tmp)
 	os.Exit(exit)
